@@ -1158,6 +1158,16 @@ int Interpret::interpPipe() {
         int bts_rd = read(STDIN_FILENO, &buf[rd_head], rd_chunk);
         if (bts_rd == 0) {
             // Read EOF
+            // What is left in the buffer is not a complete command. Let the parser see it, so that anything
+            // but blanks and comments is reported as in file mode instead of being dropped silently.
+            if (rd_head > 0) {
+                Smt2newContext context(buf);
+                int rval = osmt_yyparse(&context);
+                if (rval != 0)
+                    notify_formatted(true, "scanner");
+                else
+                    execute(context.getRoot());
+            }
             break;
         }
         if (bts_rd < 0) {
